@@ -51,6 +51,11 @@ CHECKS = {
         text="Every request outcome class (syntax, validation, variable, operation-name errors, success, partial failure) is observed under six configurations and explored schedules; the recorded log must satisfy the pairing / nesting / exactly-once specification.",
         note="Resolved fields = response paths visited by R-EXEC; crashing resolvers are outside this property (C08).",
         design="4/C16"),
+    "C10": dict(
+        technique="runtime monitor on the GraphQLResult of every entry-point call (result_mon): strict-JSON serialisation, response-format schema, locations inside the submitted text, data absent after parse/validation failure, extensions pass-through, null/error matching against the reference executor",
+        text="Requests of every failure stage (truncations, mutants, invalid documents, bad variable payloads, operation-name variants, resolver errors, nulls in non-null positions, non-finite floats) are issued under four configurations; no call may raise and every response must be well-formed.",
+        note="The misspelt 'columne' key of syntax-error locations is a listed known finding (pinned by tests/test_graphql.py).",
+        design="4/C10"),
 }
 
 PENDING_REASON = "check not built yet in this session (planned: see DESIGN.md section 4); no claim is made"
